@@ -27,6 +27,11 @@ func (this *RaftGroup) verifLoopC() chan func(uint64) {
 	c, loaded := verifLoopChans.LoadOrStore(this, make(chan func(uint64), 64))
 	if !loaded {
 		this.verifStartPumps(c.(chan func(uint64)))
+		go func() {
+			// do not keep a stopped group (and the store behind it) reachable
+			<-this.ctx.Done()
+			verifLoopChans.Delete(this)
+		}()
 	}
 	return c.(chan func(uint64))
 }
